@@ -294,12 +294,683 @@ def extract_delegate(ctx, sliced, fired):
     fired['delegate'] = rw.fired
 
 
+TDH = 'src/tbb/task_dispatcher.h'
+
+
+def extract_mailbox(ctx, sliced, fired):
+    """mail_outbox::push (wait-free MPSC push), mail_outbox::internal_pop + mail_inbox::pop (single consumer), task_dispatcher::get_mailbox_task.
+    A link (std::atomic<task_proxy*>: my_first or some proxy's next_in_mailbox) is addressed through CELL_FIRST(self) / CELL_OF(proxy); loads and stores of
+    links become ATOMIC_LOAD/ATOMIC_STORE on such a link address (representation of the list by per-index arrays)."""
+    rw = Rewriter('mailbox')
+
+    def links(t):
+        t = rw.atomics(t, ['next_in_mailbox', 'my_first', 'my_last'], 0)
+        t = rw.sub(t, r'\b(prev_ptr|link)->store\(\s*([^,;]*?)\s*,\s*std::memory_order_\w+\s*\);', r'ATOMIC_STORE(\1, \2);', 0, None, name='store through a link pointer')
+        t = rw.sub(t, r'&(\w+)->next_in_mailbox\b', r'CELL_OF(\1)', 0, None, name='&p->next_in_mailbox -> CELL_OF(p)')
+        t = rw.sub(t, r'\b(\w+)->next_in_mailbox\b', r'CELL_OF(\1)', 0, None, name='p->next_in_mailbox (operand of an atomic op) -> CELL_OF(p)')
+        t = rw.sub(t, r'&my_first\b', 'CELL_FIRST(self)', 0, None, name='&my_first -> CELL_FIRST(self)')
+        t = rw.sub(t, r'(?<![\w.>])my_first\b', 'CELL_FIRST(self)', 0, None, name='my_first (operand of an atomic op) -> CELL_FIRST(self)')
+        t = rw.sub(t, r'(?<![\w.>])my_last\b', 'self->my_last', 0, None, name='field')
+        t = rw.sub(t, r'\batomic_proxy_ptr\*', 'cell_t', 0, None, name='type of a link address')
+        t = rw.sub(t, r'\btask_proxy\*', 'proxy*', 0, None, name='type')
+        t = rw.sub(t, r'\bassert_pointer_valid\(\w+\);', 'RG_NOP();', 0, None, name='assert_pointer_valid (debug) -> RG_NOP')
+        return t
+    out = []
+    s = slice_block(MB, r'task_proxy\* internal_pop\( isolation_type isolation \)', within=r'class mail_outbox : padded<unpadded_mail_outbox> \{')
+    sliced.append('%s:%d mail_outbox::internal_pop' % (MB, s.line))
+    t = rw.sub(s.text, r'task_proxy\* internal_pop\( isolation_type isolation \)', 'proxy* outbox_internal_pop(struct outbox* self, isolation_type isolation)', 1, 1, name='sig')
+    t = rw.sub(t, r'if \( task_proxy\* second = ([^;{]*?) \) \{', r'proxy* second; if ( (second = \1) ) {', 1, 1, name='decl-in-condition')
+    t = rw.sub(t, r'task_accessor::isolation\(\*curr\)', 'PROXY_ISOLATION(curr)', 1, None, name='accessor')
+    t = rw.sub(t, r'atomic_backoff backoff;', 'RG_NOP();', 0, None, name='backoff decl -> RG_NOP')
+    t = rw.sub(t, r'\bbackoff\.pause\(\);', 'RG_NOP();', 0, None, name='backoff-call -> RG_NOP')
+    t = links(t)
+    t = rw.asserts(t, 0)
+    t = rw.std(t)
+    t = rw.number_sites(t, 'pop', by_kind=True)
+    t = tag_loops(t, 'pop', rw)
+    out.append(t)
+    s = slice_block(MB, r'task_proxy\* pop\( isolation_type isolation \)', within=r'class mail_inbox \{')
+    sliced.append('%s:%d mail_inbox::pop' % (MB, s.line))
+    t = rw.sub(s.text, r'task_proxy\* pop\( isolation_type isolation \)', 'proxy* inbox_pop(struct inbox* self, isolation_type isolation)', 1, 1, name='sig')
+    t = rw.sub(t, r'my_putter->internal_pop\(\s*isolation\s*\)', 'outbox_internal_pop(self->my_putter, isolation)', 0, None, name='method')
+    t = rw.sub(t, r'(?<![\w.>])my_putter\b', 'self->my_putter', 0, None, name='field')
+    t = rw.std(t)
+    out.append(t)
+    common.write(ctx, 'mail_pop.inc', '\n'.join(out) + '\n')
+    s = slice_block(MB, r'void push\( task_proxy\* t \)', within=r'class mail_outbox : padded<unpadded_mail_outbox> \{')
+    sliced.append('%s:%d mail_outbox::push' % (MB, s.line))
+    t = rw.sub(s.text, r'void push\( task_proxy\* t \)', 'void outbox_push(struct outbox* self, proxy* t)', 1, 1, name='sig')
+    t = links(t)
+    t = rw.std(t)
+    t = rw.number_sites(t, 'push', by_kind=True)
+    common.write(ctx, 'mail_push.inc', t + '\n')
+    # task_dispatcher::get_mailbox_task
+    s = slice_block(TDH, r'inline d1::task\* task_dispatcher::get_mailbox_task\(mail_inbox& my_inbox, execution_data_ext& ed, isolation_type isolation\)')
+    sliced.append('%s:%d task_dispatcher::get_mailbox_task' % (TDH, s.line))
+    t = rw.sub(s.text, r'inline d1::task\* task_dispatcher::get_mailbox_task\(mail_inbox& my_inbox, execution_data_ext& ed, isolation_type isolation\)',
+               'task* disp_get_mailbox_task(struct task_dispatcher* self, struct inbox* my_inbox, execution_data_ext* ed, isolation_type isolation)', 1, 1, name='sig')
+    t = rw.sub(t, r'while \(task_proxy\* const tp = my_inbox\.pop\(isolation\)\) \{', 'proxy* tp; while ((tp = STUB_inbox_pop(my_inbox, isolation))) {', 1, 1, name='decl-in-condition + callee (proved: job mail.pop)')
+    t = rw.sub(t, r'if \(d1::task\* result = tp->extract_task<task_proxy::(\w+)>\(\)\) \{', r'task* result; if ((result = STUB_proxy_extract_task(tp, \1))) {', 1, 1, name='decl-in-condition + callee (proved: job proxy.extract), template argument -> parameter')
+    t = rw.sub(t, r'\bed\.(original_slot|affinity_slot)\b', r'ed->\1', 0, None, name='ref-param')
+    t = rw.sub(t, r'ed\.task_disp->', 'ed->task_disp->', 0, None, name='ref-param')
+    t = rw.sub(t, r'tp->allocator\.delete_object\(tp, ed\);', 'STUB_delete_proxy(tp);', 0, None, name='callee stub (small_object_allocator::delete_object)')
+    t = rw.casts(t, 0)
+    t = rw.std(t)
+    t = tag_loops(t, 'gmt', rw, expect=1)
+    common.write(ctx, 'get_mailbox_task.inc', t + '\n')
+    fired['mailbox'] = rw.fired
+
+
+TASKH = 'include/oneapi/tbb/detail/_task.h'
+
+
+def extract_waitctx(ctx, sliced, fired):
+    """wait_context::add_reference / continue_execution / reserve / release and the wait_context_vertex forwarding methods"""
+    rw = Rewriter('wait_context')
+    W = r'class wait_context \{'
+    out = []
+    m = re.search(r'static constexpr std::uint64_t overflow_mask = ([^;]*);', load(TASKH))
+    if not m:
+        raise ExtractionBreak('_task.h: wait_context::overflow_mask not found')
+    out.append('#define overflow_mask ((uint64_t)(%s))' % m.group(1))
+    for name, sig, csig in (
+            ('add_reference', r'void add_reference\(std::int64_t delta\)', 'void wait_context_add_reference(struct wait_context* self, int64_t delta)'),
+            ('continue_execution', r'bool continue_execution\(\) const', 'bool wait_context_continue_execution(struct wait_context* self)'),
+            ('reserve', r'void reserve\(std::uint32_t delta = 1\)', 'void wait_context_reserve(struct wait_context* self, uint32_t delta)'),
+            ('release', r'void release\(std::uint32_t delta = 1\)', 'void wait_context_release(struct wait_context* self, uint32_t delta)')):
+        s = slice_block(TASKH, sig, within=W)
+        sliced.append('%s:%d wait_context::%s' % (TASKH, s.line, name))
+        t = rw.sub(s.text, sig, csig, 1, 1, name='sig')
+        t = rw.sub(t, r'call_itt_task_notify\(releasing, this\);', 'RG_NOP();', 0, None, name='ITT call -> RG_NOP')
+        t = rw.atomics(t, ['m_ref_count'], 0)
+        t = rw.sub(t, r'(?<![\w.>])m_ref_count\b', 'self->m_ref_count', 0, None, name='field')
+        t = rw.sub(t, r'r1::notify_waiters\(wait_ctx_addr\);', 'STUB_notify_waiters(wait_ctx_addr);', 0, None, name='callee stub (r1::notify_waiters: wakes the threads sleeping on this address)')
+        t = rw.sub(t, r'(?<![\w.>])add_reference\(', 'wait_context_add_reference(self, ', 0, None, name='method')
+        t = rw.sub(t, r'\bthis\b', 'self', 0, None, name='this')
+        t = rw.casts(t, 0)
+        t = rw.fcasts(t, ['std::uintptr_t', 'std::int64_t'])
+        t = rw.asserts(t, 0)
+        t = rw.std(t)
+        t = rw.number_sites(t, name, by_kind=True)
+        out.append(t)
+    V = r'class wait_context_vertex : public wait_tree_vertex_interface \{'
+    for name, sig, csig in (
+            ('reserve', r'void reserve\(std::uint32_t delta = 1\) override', 'void wcv_reserve(struct wait_context_vertex* self, uint32_t delta)'),
+            ('release', r'void release\(std::uint32_t delta = 1\) override', 'void wcv_release(struct wait_context_vertex* self, uint32_t delta)'),
+            ('continue_execution', r'bool continue_execution\(\) const', 'bool wcv_continue_execution(struct wait_context_vertex* self)')):
+        s = slice_block(TASKH, sig, within=V)
+        sliced.append('%s:%d wait_context_vertex::%s' % (TASKH, s.line, name))
+        t = rw.sub(s.text, sig, csig, 1, 1, name='sig')
+        t = rw.sub(t, r'm_wait\.(reserve|release)\(delta\);', r'wait_context_\1(&self->m_wait, delta);', 0, None, name='member call')
+        t = rw.sub(t, r'm_wait\.continue_execution\(\)', 'wait_context_continue_execution(&self->m_wait)', 0, None, name='member call')
+        t = rw.std(t)
+        out.append(t)
+    common.write(ctx, 'waitctx.inc', '\n'.join(out) + '\n')
+    fired['wait_context'] = rw.fired
+
+
+TSH = 'src/tbb/task_stream.h'
+
+
+def raii_try_lock(rw, text, decl_pat=r'mutex::scoped_lock (\w+);'):
+    """`mutex::scoped_lock L;` (acquired later by L.try_acquire(m), released by the destructor if held) -> `scoped_lock_t L; SCOPED_LOCK_INIT(L);` at the declaration,
+    `SCOPED_LOCK_EXIT(L);` wherever the object goes out of scope: before the closing brace of the enclosing block and in front of every return / break / continue that lies textually
+    inside that scope (a scope that contains a loop of its own is refused: a break would then not leave the scope)."""
+    n = 0
+    while True:
+        m = re.search(decl_pat, text)
+        if not m:
+            break
+        n += 1
+        name = m.group(1)
+        mk = cxx2c.mask(text)
+        d, i = 0, m.start() - 1
+        while i >= 0:
+            if mk[i] == '}':
+                d += 1
+            elif mk[i] == '{':
+                if d == 0:
+                    break
+                d -= 1
+            i -= 1
+        if i < 0:
+            raise ExtractionBreak('%s: scoped lock outside a block' % rw.name)
+        close = cxx2c.match_close(mk, i)
+        body, bmask = text[m.end():close], mk[m.end():close]
+        if re.search(r'\b(for|while|do|switch)\b', bmask):
+            raise ExtractionBreak('%s: a loop inside the scope of scoped_lock %s' % (rw.name, name))
+        out, pos = [], 0
+        for r in re.finditer(r'\breturn\b[^;]*;|\bbreak\s*;|\bcontinue\s*;', bmask):
+            out.append(body[pos:r.start()])
+            out.append('{ SCOPED_LOCK_EXIT(%s); %s }' % (name, body[r.start():r.end()]))
+            pos = r.end()
+        out.append(body[pos:])
+        text = text[:m.start()] + 'scoped_lock_t %s; SCOPED_LOCK_INIT(%s);' % (name, name) + ''.join(out) + 'SCOPED_LOCK_EXIT(%s); ' % name + text[close:]
+    rw._rec('mutex::scoped_lock + try_acquire -> SCOPED_LOCK_INIT / SCOPED_LOCK_EXIT at every scope exit', n, 0)
+    text = rw.call(text, r'\b(\w+)\.try_acquire', lambda mm, a: 'SCOPED_TRY_ACQUIRE(%s, %s)' % (mm.group(1), ', '.join(a)), 0, name='try_acquire')
+    return text
+
+
+def extract_stream(ctx, sliced, fired):
+    """task_stream<accessor>: push / try_push / pop / try_pop / pop_specific / look_specific / empty, both accessors' get_item, the population bit helpers, the lane selectors,
+    initialize's lane count.  A lane's std::deque is reached through Q_* accessor macros (iterators are positions), lanes[i] through LANE* macros."""
+    rw = Rewriter('task_stream')
+    src = load(TSH)
+    if not re.search(r'const population_t one = 1;', src) or not re.search(r'using population_t = uintptr_t;', src):
+        raise ExtractionBreak('task_stream.h: population_t / one changed')
+    TS = r'class task_stream : public task_stream_accessor< accessor > \{'
+    # closed world: the population word is written only through set_one_bit / clear_one_bit, and those are called only from the three functions proved to call them under the lane lock
+    cls = slice_block(TSH, TS).text
+    nset, nclr = len(re.findall(r'\bset_one_bit\s*\(', cls)), len(re.findall(r'\bclear_one_bit\s*\(', cls))
+    if re.search(r'\bpopulation\s*(?:=[^=]|\.(?:store|exchange|fetch_\w+|compare_exchange_\w+)\b|[|&^+-]=)', cls):
+        raise ExtractionBreak('task_stream: the population word is written outside set_one_bit / clear_one_bit (closed-world scan)')
+    others = [f for f in ('src/tbb/arena.h', 'src/tbb/arena.cpp', 'src/tbb/task_dispatcher.h', 'src/tbb/task_dispatcher.cpp', 'src/tbb/scheduler_common.h') if re.search(r'\b(set_one_bit|clear_one_bit)\b', load(f))]
+    if others:
+        raise ExtractionBreak('set_one_bit / clear_one_bit used outside task_stream.h: %s (closed-world scan)' % others)
+
+    def common_rules(t):
+        t = raii_try_lock(rw, t)
+        t = rw.sub(t, r'lane_t& lane = lanes\[(\w+)\];', r'lane_t lane = LANE(self, \1);', 0, None, name='lane reference -> lane handle')
+        t = rw.sub(t, r'\blanes\[(\w+)\]\.my_mutex\b', r'LANE_MUTEX(self, \1)', 0, None, name='lanes[i].my_mutex')
+        t = rw.sub(t, r'\blanes\[(\w+)\]\.my_queue\b', r'LANE_QUEUE(self, \1)', 0, None, name='lanes[i].my_queue')
+        t = rw.sub(t, r'\blane\.my_mutex\b', 'LANE_M(lane)', 0, None, name='lane.my_mutex')
+        t = rw.sub(t, r'\blane\.my_queue\b', 'LANE_Q(lane)', 0, None, name='lane.my_queue')
+        t = rw.sub(t, r'typename lane_t::queue_base_t::iterator\b', 'qiter_t', 0, None, name='deque iterator -> position')
+        t = rw.sub(t, r'(?:typename )?lane_t::queue_base_t&', 'queue_t', 0, None, name='deque reference -> queue handle')
+        t = rw.sub(t, r'\*--curr\b', 'Q_AT(queue, --curr)', 0, None, name='iterator dereference -> Q_AT')
+        t = rw.sub(t, r'(?<![\w)])\*curr = ([^;]*);', r'Q_SET(queue, curr, \1);', 0, None, name='store through iterator -> Q_SET')
+        t = rw.call(t, r'(?P<q>LANE_QUEUE\(self, \w+\)|LANE_Q\(lane\)|\bqueue)\.(?P<m>empty|front|pop_front|back|pop_back|push_back|end|begin)',
+                    lambda mm, a: 'Q_%s(%s)' % (mm.group('m').upper(), ', '.join([mm.group('q')] + [x for x in a if x])), 0, name='deque method -> Q_*')
+        t = rw.sub(t, r'task_accessor::isolation\(\*result\)', 'TASK_ISOLATION(result)', 0, None, name='accessor')
+        t = rw.atomics(t, ['population', 'dest'], 0)
+        t = rw.sub(t, r'ATOMIC_(\w+)\(population\b', r'ATOMIC_\1(self->population', 0, None, name='field')
+        t = rw.sub(t, r'ATOMIC_(\w+)\(dest\b', r'ATOMIC_\1(*dest', 0, None, name='ref-param')
+        t = rw.sub(t, r'\b(set_one_bit|clear_one_bit)\(\s*population\s*,', r'\1( &self->population,', 0, None, name='ref-arg')
+        t = rw.sub(t, r'(?<![\w.>])(N|lanes)\b(?!\s*\()', r'self->\1', 0, None, name='field')
+        t = rw.sub(t, r'(?<![\w.>])(try_push|try_pop|look_specific|empty)\(', r'stream_\1(self, ', 0, None, name='method')
+        t = rw.sub(t, r'\(self, \)', '(self)', 0, None, name='method (no args)')
+        t = rw.sub(t, r'this->get_item\(', 'ACCESSOR_get_item(', 0, None, name='accessor base-class method')
+        t = rw.sub(t, r'\bnext_lane\(\s*(self->N)\s*\)', r'LANE_SELECT(next_lane, \1)', 0, None, name='functor call')
+        t = rw.sub(t, r'for \(atomic_backoff b;', 'for (;', 0, None, name='backoff-for')
+        t = rw.sub(t, r'\bb\.pause\(\)', 'RG_NOP()', 0, None, name='backoff-call -> RG_NOP')
+        t = rw.sub(t, r'd1::task\*', 'task*', 0, None, name='ns-strip')
+        t = rw.casts(t, 0)
+        t = rw.fcasts(t, ['int'])
+        t = rw.asserts(t, 0)
+        t = rw.std(t)
+        return t
+    inc = {}
+    for name, sig, csig, within in (
+            ('set_one_bit', r'inline void set_one_bit\( std::atomic<population_t>& dest, int pos \)', 'void set_one_bit(population_t* dest, int pos)', None),
+            ('clear_one_bit', r'inline void clear_one_bit\( std::atomic<population_t>& dest, int pos \)', 'void clear_one_bit(population_t* dest, int pos)', None),
+            ('is_bit_set', r'inline bool is_bit_set\( population_t val, int pos \)', 'bool is_bit_set(population_t val, int pos)', None),
+            ('empty', r'bool empty\(\)', 'bool stream_empty(struct task_stream* self)', TS),
+            ('try_push', r'bool try_push\(d1::task\* source, unsigned lane_idx \)', 'bool stream_try_push(struct task_stream* self, task* source, unsigned lane_idx)', TS),
+            ('try_pop', r'd1::task\* try_pop\( unsigned lane_idx \)', 'task* stream_try_pop(struct task_stream* self, unsigned lane_idx)', TS),
+            ('look_specific', r'd1::task\* look_specific\( typename lane_t::queue_base_t& queue, isolation_type isolation \)', 'task* stream_look_specific(struct task_stream* self, queue_t queue, isolation_type isolation)', TS),
+            ('pop_specific', r'd1::task\* pop_specific\( unsigned& last_used_lane, isolation_type isolation \)', 'task* stream_pop_specific(struct task_stream* self, unsigned* last_used_lane, isolation_type isolation)', TS),
+            ('push', r'void push\(d1::task\* source, const lane_selector_t& next_lane \)', 'void stream_push(struct task_stream* self, task* source, lane_selector_t* next_lane)', TS),
+            ('pop', r'd1::task\* pop\( const lane_selector_t& next_lane \)', 'task* stream_pop(struct task_stream* self, lane_selector_t* next_lane)', TS),
+            ('get_item_front', r'd1::task\* get_item\( lane_t::queue_base_t& queue \)', 'task* front_get_item(queue_t queue)', r'class task_stream_accessor : no_copy \{'),
+            ('get_item_back', r'd1::task\* get_item\( lane_t::queue_base_t& queue \)', 'task* backnn_get_item(queue_t queue)', r'class task_stream_accessor< back_nonnull_accessor > : no_copy \{')):
+        sl = slice_block(TSH, sig, within=within)
+        sliced.append('%s:%d %s' % (TSH, sl.line, name))
+        t = rw.sub(sl.text, sig, csig, 1, 1, name='sig')
+        if name == 'pop_specific':
+            t = rw.sub(t, r'(?<![\w.>*])(?<!\* )last_used_lane\b', '(*last_used_lane)', 1, None, name='ref-param')
+        t = common_rules(t)
+        t = rw.number_sites(t, name, by_kind=True)
+        t = tag_loops(t, name, rw)
+        inc[name] = t
+    protos = 'bool stream_try_push(struct task_stream* self, task* source, unsigned lane_idx);\ntask* stream_try_pop(struct task_stream* self, unsigned lane_idx);\ntask* stream_look_specific(struct task_stream* self, queue_t queue, isolation_type isolation);\nbool stream_empty(struct task_stream* self);\n'
+    common.write(ctx, 'stream_bits.inc', '\n'.join(inc[k] for k in ('set_one_bit', 'clear_one_bit', 'is_bit_set')) + '\n')
+    for k in ('empty', 'try_push', 'try_pop', 'look_specific', 'pop_specific', 'push', 'pop', 'get_item_front', 'get_item_back'):
+        common.write(ctx, 'stream_%s.inc' % k, (protos if k in ('pop_specific', 'push', 'pop') else '') + inc[k] + '\n')
+    # lane selectors and the lane count
+    sel = []
+    for cname, W, body_rule in (('subsequent', r'struct subsequent_lane_selector : lane_selector_base \{', None), ('preceding', r'struct preceding_lane_selector : lane_selector_base \{', None),
+                                ('random', r'struct random_lane_selector :', None)):
+        sl = slice_block(TSH, r'unsigned operator\(\)\( unsigned out_of \) const', within=W)
+        sliced.append('%s:%d %s_lane_selector::operator()' % (TSH, sl.line, cname))
+        t = rw.sub(sl.text, r'unsigned operator\(\)\( unsigned out_of \) const', 'unsigned %s_lane_selector_call(struct lane_selector* self, unsigned out_of)' % cname, 1, 1, name='sig')
+        t = rw.sub(t, r'\((\+\+|--)my_previous ([-+*/%&|^]|<<|>>)= ([^;]*?)\);', r'(\1(*self->my_previous), (*self->my_previous) \2= \3);', 0, None, name='C++ `(++x &= m)` (x is an lvalue after ++) -> C `(++x, x &= m)`: same operators, same operands, same order')
+        t = rw.sub(t, r'(?<![\w.>])my_previous\b', '(*self->my_previous)', 0, None, name='reference member')
+        t = rw.sub(t, r'my_random\.get\(\)', 'STUB_random_get(self)', 0, None, name='callee stub (FastRandom::get: any value)')
+        t = rw.asserts(t, 0)
+        t = rw.std(t)
+        sel.append(t)
+    sl = slice_block(TSH, r'void initialize\( unsigned n_lanes \)', within=TS)
+    sliced.append('%s:%d task_stream::initialize' % (TSH, sl.line))
+    t = rw.sub(sl.text, r'void initialize\( unsigned n_lanes \)', 'void stream_initialize(struct task_stream* self, unsigned n_lanes)', 1, 1, name='sig')
+    t = rw.sub(t, r'tbb::detail::log2\(', 'tbb_log2(', 0, None, name='ns-strip (log2: sliced, common.log2_c)')
+    t = rw.sub(t, r'lanes = static_cast<lane_t\*>\(cache_aligned_allocate\(sizeof\(lane_t\) \* N\)\);', 'self->lanes = STUB_allocate_lanes(self->N);', 0, None, name='callee stub (allocation of N lanes)')
+    t = rw.sub(t, r'new \(lanes \+ i\) lane_t;', 'STUB_construct_lane(self->lanes, i);', 0, None, name='placement new -> stub')
+    t = rw.sub(t, r'population\.load\([^)]*\)', 'self->population', 0, None, name='load')
+    t = rw.sub(t, r'(?<![\w.>])N\b', 'self->N', 0, None, name='field')
+    t = rw.asserts(t, 0)
+    t = rw.std(t)
+    t = tag_loops(t, 'initialize', rw)
+    l2, f2 = common.log2_c(ctx, sliced)
+    common.write(ctx, 'stream_lanes.inc', l2 + '\n'.join(sel) + '\n' + t + '\n')
+    fired['task_stream'] = rw.fired
+    fired['task_stream.log2'] = f2
+
+
+TGH = 'include/oneapi/tbb/task_group.h'
+THH = 'include/oneapi/tbb/detail/_task_handle.h'
+TDC = 'src/tbb/task_dispatcher.cpp'
+
+
+def extract_glue(ctx, sliced, fired):
+    """the glue between the user-level group and the scheduler: task_handle_task (constructor reserves, destructor releases, finalize destroys), function_task::execute / cancel,
+    function_stack_task, task_group_base::prepare_task / wait, task_group::run, r1::spawn (plain and with an affinity slot: proxy + mailbox), spawn_and_notify, arena::enqueue_task."""
+    rw = Rewriter('glue')
+    out = []
+
+    def fin(t):
+        t = rw.sub(t, r'd1::task\*', 'task*', 0, None, name='ns-strip')
+        t = rw.sub(t, r'(?<![\w:])task\* res\b', 'task* res', 0, None, name='type')
+        t = rw.casts(t, 0)
+        t = rw.asserts(t, 0)
+        t = rw.std(t)
+        return t
+    # --- task_handle_task
+    W = r'class task_handle_task : public d1::task \{'
+    s1 = slice_block(THH, r'task_handle_task\(d1::wait_tree_vertex_interface\* vertex, d1::task_group_context& ctx, d1::small_object_allocator& alloc\)', within=W, ctor=True)
+    sliced.append('%s:%d task_handle_task::task_handle_task' % (THH, s1.line))
+    t = rw.sub(s1.text, r'task_handle_task\(d1::wait_tree_vertex_interface\* vertex, d1::task_group_context& ctx, d1::small_object_allocator& alloc\)\s*:\s*m_wait_tree_vertex\(vertex\)\s*,\s*m_ctx\(ctx\)\s*,\s*m_allocator\(alloc\)\s*\{',
+               'void tht_ctor(struct fntask* self, vertex* vertex_, struct tgc* ctx, struct soa* alloc) {\n        self->m_wait_tree_vertex = vertex_; self->m_ctx = ctx; self->m_allocator = *alloc;', 1, 1, name='ctor sig + init-list -> assignments (declared order = listed order, checked below)')
+    if not re.search(r'(?s)std::uint64_t m_version_and_traits\{\};\s*d1::wait_tree_vertex_interface\* m_wait_tree_vertex;\s*d1::task_group_context& m_ctx;\s*d1::small_object_allocator m_allocator;', load(THH)):
+        raise ExtractionBreak('_task_handle.h: member order of task_handle_task changed')
+    t = rw.sub(t, r'suppress_unused_warning\(m_version_and_traits\);', 'RG_NOP();', 0, None, name='suppress_unused_warning -> RG_NOP')
+    t = rw.sub(t, r'(?<![\w.>])m_wait_tree_vertex->(reserve|release)\(\);', r'VERTEX_\1(self->m_wait_tree_vertex);', 0, None, name='wait-tree vertex call')
+    out.append(fin(t))
+    s1 = slice_block(THH, r'~task_handle_task\(\) override', within=W)
+    sliced.append('%s:%d task_handle_task::~task_handle_task' % (THH, s1.line))
+    t = rw.sub(s1.text, r'~task_handle_task\(\) override', 'void tht_dtor(struct fntask* self)', 1, 1, name='sig')
+    t = rw.sub(t, r'(?<![\w.>])m_wait_tree_vertex->(reserve|release)\(\);', r'VERTEX_\1(self->m_wait_tree_vertex);', 0, None, name='wait-tree vertex call')
+    out.append(fin(t))
+    s1 = slice_block(THH, r'void finalize\(const d1::execution_data\* ed = nullptr\)', within=W)
+    sliced.append('%s:%d task_handle_task::finalize' % (THH, s1.line))
+    t = rw.sub(s1.text, r'void finalize\(const d1::execution_data\* ed = nullptr\)', 'void tht_finalize(struct fntask* self, struct execution_data* ed)', 1, 1, name='sig')
+    t = rw.sub(t, r'm_allocator\.delete_object\(this, \*ed\);', 'DELETE_OBJECT_ED(&self->m_allocator, self, ed);', 0, None, name='small_object_allocator::delete_object (runs the destructor, then deallocates)')
+    t = rw.sub(t, r'm_allocator\.delete_object\(this\);', 'DELETE_OBJECT(&self->m_allocator, self);', 0, None, name='small_object_allocator::delete_object (runs the destructor, then deallocates)')
+    out.append(fin(t))
+    s1 = slice_block(THH, r'd1::task_group_context& ctx\(\) const', within=W)
+    sliced.append('%s:%d task_handle_task::ctx' % (THH, s1.line))
+    t = rw.sub(s1.text, r'd1::task_group_context& ctx\(\) const', 'struct tgc* tht_ctx(struct fntask* self)', 1, 1, name='sig')
+    t = rw.sub(t, r'return m_ctx;', 'return self->m_ctx;', 1, 1, name='field')
+    out.append(fin(t))
+    # --- task_ptr_or_nullptr (configuration without TBB_PREVIEW_TASK_GROUP_EXTENSIONS: user code)
+    s1 = slice_block(TGH, r'd1::task\* task_ptr_or_nullptr\(F&& f\)\{', nth=1)
+    sliced.append('%s:%d task_ptr_or_nullptr (non-preview configuration)' % (TGH, s1.line))
+    t = rw.sub(s1.text, r'd1::task\* task_ptr_or_nullptr\(F&& f\)\{', 'task* task_ptr_or_nullptr(struct func* f){', 1, 1, name='sig')
+    t = rw.sub(t, r'std::forward<F>\(f\)\(\);', 'CALL_FUNC(f);', 0, None, name='functor call')
+    out.append(fin(t))
+    # --- function_task
+    W = r'class function_task : public task_handle_task\s*\{'
+    s1 = slice_block(TGH, r'd1::task\* execute\(d1::execution_data& ed\) override', within=W)
+    sliced.append('%s:%d function_task::execute' % (TGH, s1.line))
+    t = rw.sub(s1.text, r'd1::task\* execute\(d1::execution_data& ed\) override', 'task* ft_execute(struct fntask* self, struct execution_data* ed)', 1, 1, name='sig')
+    t = rw.sub(t, r'ed\.context == &this->ctx\(\)', 'ed->context == tht_ctx(self)', 0, None, name='ref')
+    t = rw.sub(t, r'task_ptr_or_nullptr\(m_func\)', 'task_ptr_or_nullptr(self->m_func)', 0, None, name='field')
+    t = rw.sub(t, r'(?<![\w.>])finalize\(&ed\);', 'tht_finalize(self, ed);', 0, None, name='method + ref')
+    out.append(fin(t))
+    s1 = slice_block(TGH, r'd1::task\* cancel\(d1::execution_data& ed\) override', within=W)
+    sliced.append('%s:%d function_task::cancel' % (TGH, s1.line))
+    t = rw.sub(s1.text, r'd1::task\* cancel\(d1::execution_data& ed\) override', 'task* ft_cancel(struct fntask* self, struct execution_data* ed)', 1, 1, name='sig')
+    t = rw.sub(t, r'(?<![\w.>])finalize\(&ed\);', 'tht_finalize(self, ed);', 0, None, name='method + ref')
+    out.append(fin(t))
+    # --- function_stack_task
+    W = r'class function_stack_task : public d1::task \{'
+    for name, sig, csig, isctor in (
+            ('finalize', r'void finalize\(\)', 'void fst_finalize(struct stacktask* self)', False),
+            ('execute', r'task\* execute\(d1::execution_data&\) override', 'task* fst_execute(struct stacktask* self)', False),
+            ('cancel', r'task\* cancel\(d1::execution_data&\) override', 'task* fst_cancel(struct stacktask* self)', False),
+            ('function_stack_task', r'function_stack_task\(const F& f, d1::wait_tree_vertex_interface\* vertex\) : m_func\(f\), m_wait_tree_vertex\(vertex\)', 'void fst_ctor(struct stacktask* self, struct func* f, vertex* vertex_)', True)):
+        s1 = slice_block(TGH, sig, within=W, ctor=isctor)
+        sliced.append('%s:%d function_stack_task::%s' % (TGH, s1.line, name))
+        t = rw.sub(s1.text, sig + (r'\s*\{' if isctor else ''), csig + (' {\n        self->m_func = f; self->m_wait_tree_vertex = vertex_;' if isctor else ''), 1, 1, name='sig')
+        t = rw.sub(t, r'(?<![\w.>])m_wait_tree_vertex->(reserve|release)\(\);', r'VERTEX_\1(self->m_wait_tree_vertex);', 0, None, name='wait-tree vertex call')
+        t = rw.sub(t, r'd2::task_ptr_or_nullptr\(m_func\)', 'task_ptr_or_nullptr(self->m_func)', 0, None, name='field')
+        t = rw.sub(t, r'(?<![\w.>])finalize\(\);', 'fst_finalize(self);', 0, None, name='method')
+        out.append(fin(t))
+    # --- task_group_base::prepare_task / wait, task_group::run
+    W = r'class task_group_base : no_copy \{'
+    s1 = slice_block(TGH, r'd1::task\* prepare_task\(F&& f\)', within=W)
+    sliced.append('%s:%d task_group_base::prepare_task' % (TGH, s1.line))
+    t = rw.sub(s1.text, r'd1::task\* prepare_task\(F&& f\)', 'task* tgb_prepare_task(struct task_group_base* self, struct func* f)', 1, 1, name='sig')
+    t = rw.sub(t, r'd1::small_object_allocator alloc\{\};', 'struct soa alloc = {0};', 1, 1, name='decl')
+    t = rw.sub(t, r'(?s)alloc\.new_object<function_task<typename std::decay<F>::type>>\(std::forward<F>\(f\),\s*r1::get_thread_reference_vertex\(([^()]*)\), context\(\), alloc\)',
+               r'NEW_function_task(&alloc, f, STUB_get_thread_reference_vertex(\1), tgb_context(self))', 0, None, name='new_object<function_task> -> allocation + the sliced constructor')
+    t = rw.sub(t, r'(?<![\w.>])m_wait_vertex\b', 'self->m_wait_vertex', 0, None, name='field')
+    out.append(fin(t))
+    s1 = slice_block(TGH, r'task_group_status wait\(\)', within=W)
+    sliced.append('%s:%d task_group_base::wait' % (TGH, s1.line))
+    t = rw.sub(s1.text, r'task_group_status wait\(\)', 'task_group_status tgb_wait(struct task_group_base* self)', 1, 1, name='sig')
+    t = rw.sub(t, r'(?s)try_call\(\[&\] \{(.*?)\}\)\.on_completion\(\[&\] \{(.*?)\}\);', r'{ \1 } /* on completion (normal path; the exceptional path is C03) */ { \2 }', 1, 1, name='try_call(body).on_completion(fin) -> body; fin (no-exception path)')
+    t = rw.sub(t, r'd1::wait\(m_wait_vertex\.get_context\(\), context\(\)\);', 'STUB_d1_wait(WCV_get_context(&self->m_wait_vertex), tgb_context(self));', 0, None, name='callee stub (the dispatch loop: returns when the wait context has no reference left)')
+    t = rw.sub(t, r'm_context\.is_group_execution_cancelled\(\)', 'TGC_is_group_execution_cancelled(&self->m_context)', 0, None, name='method')
+    t = rw.sub(t, r'(?<![\w.>])context\(\)\.reset\(\);', 'TGC_reset(tgb_context(self));', 0, None, name='method')
+    out.append(fin(t))
+    W2 = r'class task_group : public task_group_base \{'
+    s1 = slice_block(TGH, r'void run\(F&& f\)', within=W2)
+    sliced.append('%s:%d task_group::run' % (TGH, s1.line))
+    t = rw.sub(s1.text, r'void run\(F&& f\)', 'void tg_run(struct task_group_base* self, struct func* f)', 1, 1, name='sig')
+    t = rw.sub(t, r'd1::spawn\(\*prepare_task\(std::forward<F>\(f\)\), context\(\)\);', 'D1_spawn(tgb_prepare_task(self, f), tgb_context(self));', 0, None, name='spawn of the prepared task')
+    out.append(fin(t))
+    common.write(ctx, 'glue_group.inc', '\n'.join(out) + '\n')
+    # --- r1::spawn / spawn_and_notify (task_dispatcher.cpp), arena::enqueue_task
+    out = []
+
+    def sp(t):
+        t = rw.sub(t, r'thread_data\* tls = governor::get_thread_data\(\);', 'struct thread_data* tls = STUB_get_thread_data();', 0, None, name='callee stub')
+        t = rw.sub(t, r'task_group_context_impl::bind_to\(ctx, &?(\w+)\);', r'STUB_bind_to(ctx, \1);', 0, None, name='callee (C04: bind_to)')
+        t = rw.sub(t, r'(?<![\w:])(?<!struct )arena\* a\b', 'struct arena* a', 0, None, name='type')
+        t = rw.sub(t, r'(?<![\w:])(?<!struct )arena_slot\* slot\b', 'struct aslot* slot', 0, None, name='type')
+        t = rw.sub(t, r'execution_data_ext& ed = ([^;]*);', r'execution_data_ext* ed = &\1;', 0, None, name='reference -> pointer')
+        t = rw.sub(t, r'\bed\.isolation\b', 'ed->isolation', 0, None, name='reference -> pointer')
+        t = rw.sub(t, r'task_accessor::context\(t\) = &ctx;', 'TASK_CONTEXT(t) = ctx;', 0, None, name='accessor + ref')
+        t = rw.sub(t, r'task_accessor::isolation\(t\)', 'TASK_ISOLATION(t)', 0, None, name='accessor')
+        t = rw.sub(t, r'task_accessor::isolation\(\*proxy\)', 'TASK_ISOLATION((task*)proxy)', 0, None, name='accessor')
+        t = rw.sub(t, r'task_accessor::set_proxy_trait\(\*proxy\);', 'TASK_set_proxy_trait((task*)proxy);', 0, None, name='accessor')
+        t = rw.sub(t, r'd1::small_object_allocator alloc\{\};', 'struct soa alloc = {0};', 0, None, name='decl')
+        t = rw.sub(t, r'auto proxy = alloc\.new_object<task_proxy>\(static_cast<d1::execution_data&>\(ed\)\);', 'struct task_proxy* proxy = NEW_task_proxy(&alloc, ed);', 0, None, name='new_object<task_proxy>')
+        t = rw.sub(t, r'&a->mailbox\(id\)', 'ARENA_mailbox(a, id)', 0, None, name='accessor')
+        t = rw.sub(t, r'intptr_t\(&t\)', '((intptr_t)(t))', 0, None, name='fcast + ref')
+        t = rw.sub(t, r'task_proxy::(location_mask|pool_bit|mailbox_bit)\b', r'\1', 0, None, name='ns-strip')
+        t = rw.sub(t, r'proxy->outbox->push\(proxy\);', 'OUTBOX_push(proxy->outbox, proxy);', 0, None, name='callee (proved: job mail.push)')
+        t = rw.sub(t, r'spawn_and_notify\(\*proxy, slot, a\);', 'spawn_and_notify((task*)proxy, slot, a);', 0, None, name='ref')
+        t = rw.sub(t, r'slot->spawn\(t\);', 'SLOT_spawn(slot, t);', 0, None, name='callee (proved: job pool.spawn.*)')
+        t = rw.sub(t, r'a->advertise_new_work<arena::(\w+)>\(\);', r'ARENA_advertise_new_work(a, \1);', 0, None, name='callee stub')
+        t = rw.sub(t, r'advertise_new_work<(\w+)>\(\);', r'ARENA_advertise_new_work(self, \1);', 0, None, name='callee stub')
+        t = rw.sub(t, r'd1::no_slot', 'no_slot', 0, None, name='ns-strip')
+        t = rw.sub(t, r'tls->my_task_dispatcher->m_execute_data_ext\.isolation', 'tls->my_task_dispatcher->m_execute_data_ext.isolation', 0, None, name='(identity)')
+        t = rw.casts(t, 0)
+        t = rw.std(t)
+        return t
+    for name, sig, csig in (
+            ('spawn_and_notify', r'static inline void spawn_and_notify\(d1::task& t, arena_slot\* slot, arena\* a\)', 'void spawn_and_notify(task* t, struct aslot* slot, struct arena* a)'),
+            ('spawn', r'void __TBB_EXPORTED_FUNC spawn\(d1::task& t, d1::task_group_context& ctx\)', 'void r1_spawn(task* t, struct tgc* ctx)'),
+            ('spawn(affinity)', r'void __TBB_EXPORTED_FUNC spawn\(d1::task& t, d1::task_group_context& ctx, d1::slot_id id\)', 'void r1_spawn_aff(task* t, struct tgc* ctx, slot_id id)')):
+        s1 = slice_block(TDC, sig)
+        sliced.append('%s:%d r1::%s' % (TDC, s1.line, name))
+        t = rw.sub(s1.text, sig, csig, 1, 1, name='sig')
+        out.append(sp(t))
+    s1 = slice_block(ARC, r'void arena::enqueue_task\(d1::task& t, d1::task_group_context& ctx, thread_data& td\)')
+    sliced.append('%s:%d arena::enqueue_task' % (ARC, s1.line))
+    t = rw.sub(s1.text, r'void arena::enqueue_task\(d1::task& t, d1::task_group_context& ctx, thread_data& td\)', 'void arena_enqueue_task(struct arena* self, task* t, struct tgc* ctx, struct thread_data* td)', 1, 1, name='sig')
+    t = rw.sub(t, r'my_fifo_task_stream\.push\( &t, random_lane_selector\(td\.my_random\) \);', 'STREAM_push(&self->my_fifo_task_stream, t, &td->my_random);', 0, None, name='callee (proved: job stream.push)')
+    out.append(sp(t))
+    common.write(ctx, 'glue_spawn.inc', '\n'.join(out) + '\n')
+    fired['glue'] = rw.fired
+
+
+SOPH = 'include/oneapi/tbb/detail/_small_object_pool.h'
+SOPC = 'src/tbb/small_object_pool.cpp'
+SOPI = 'src/tbb/small_object_pool_impl.h'
+
+
+def extract_pool(ctx, sliced, fired):
+    """the memory of a task_group task: small_object_allocator::new_object / delete_object / deallocate (template <typename Type> -> a size parameter SIZEOF_Type),
+    r1::allocate / r1::deallocate, small_object_pool_impl::allocate_impl / deallocate_impl; and WHICH Type the two call sites bind (prepare_task: new_object<...>; finalize: delete_object(this))."""
+    rw = Rewriter('small_object_pool')
+    m = re.search(r'static constexpr std::size_t small_object_size = (\d+);', load(SOPI))
+    if not m:
+        raise ExtractionBreak('small_object_pool_impl.h: small_object_size not found')
+    out = ['#define small_object_size ((size_t)%s)' % m.group(1),
+           'void* pool_allocate_impl(struct pool* self, struct pool** allocator, size_t number_of_bytes);\nvoid pool_deallocate_impl(struct pool* self, void* ptr, size_t number_of_bytes, struct thread_data* td);\n'
+           'void* r1_allocate(struct pool** allocator, size_t number_of_bytes);\nvoid r1_deallocate(struct pool* allocator, void* ptr, size_t number_of_bytes);\nvoid r1_deallocate_ed(struct pool* allocator, void* ptr, size_t number_of_bytes, execution_data_ext* ed);\n'
+           'void soa_deallocate(struct soa* self, void* ptr, size_t SIZEOF_Type);\nvoid soa_deallocate_ed(struct soa* self, void* ptr, size_t SIZEOF_Type, execution_data_ext* ed);']
+    W = r'class small_object_allocator \{'
+
+    def fin(t):
+        t = rw.sub(t, r'\bsizeof\(Type\)', 'SIZEOF_Type', 0, None, name='template <typename Type>: sizeof(Type) -> parameter SIZEOF_Type')
+        t = rw.sub(t, r'call_itt_task_notify\(destroy, ptr\);', 'RG_NOP();', 0, None, name='ITT call -> RG_NOP')
+        t = rw.sub(t, r'small_object_allocator alloc = \*this;', 'struct soa alloc = *self;', 0, None, name='copy of *this')
+        t = rw.sub(t, r'object->~Type\(\);', 'DESTROY_OBJECT(object);', 0, None, name='destructor call')
+        t = rw.sub(t, r'alloc\.deallocate\(object, ed\);', 'soa_deallocate_ed(&alloc, object, SIZEOF_Type, ed);', 0, None, name='member template call: same Type')
+        t = rw.sub(t, r'alloc\.deallocate\(object\);', 'soa_deallocate(&alloc, object, SIZEOF_Type);', 0, None, name='member template call: same Type')
+        t = rw.sub(t, r'r1::allocate\(m_pool, ', 'r1_allocate(&self->m_pool, ', 0, None, name='ns-strip + ref-arg')
+        t = rw.sub(t, r'r1::deallocate\(\*m_pool, ([^;]*), ed\);', r'r1_deallocate_ed(self->m_pool, \1, ed);', 0, None, name='ns-strip + ref-arg')
+        t = rw.sub(t, r'r1::deallocate\(\*m_pool, ([^;]*)\);', r'r1_deallocate(self->m_pool, \1);', 0, None, name='ns-strip + ref-arg')
+        t = rw.sub(t, r'auto constructed_object = new\(allocated_object\) Type\(std::forward<Args>\(args\)\.\.\.\);', 'void* constructed_object = CONSTRUCT_AT(allocated_object);', 0, None, name='placement new of Type -> CONSTRUCT_AT')
+        t = rw.sub(t, r'(?<![\w.>])m_pool\b', 'self->m_pool', 0, None, name='field')
+        t = rw.asserts(t, 0)
+        t = rw.std(t)
+        return t
+    for name, sig, csig, nth in (
+            ('new_object', r'Type\* new_object\(Args&&\.\.\. args\)', 'void* soa_new_object(struct soa* self, size_t SIZEOF_Type)', 0),
+            ('deallocate(ed)', r'void deallocate\(Type\* ptr, const execution_data& ed\)', 'void soa_deallocate_ed(struct soa* self, void* ptr, size_t SIZEOF_Type, execution_data_ext* ed)', 0),
+            ('deallocate', r'void deallocate\(Type\* ptr\)', 'void soa_deallocate(struct soa* self, void* ptr, size_t SIZEOF_Type)', 0),
+            ('delete_object(ed)', r'void delete_object\(Type\* object, const execution_data& ed\)', 'void soa_delete_object_ed(struct soa* self, void* object, size_t SIZEOF_Type, execution_data_ext* ed)', 0),
+            ('delete_object', r'void delete_object\(Type\* object\)', 'void soa_delete_object(struct soa* self, void* object, size_t SIZEOF_Type)', 0)):
+        s1 = slice_block(SOPH, sig, within=W, nth=nth)
+        sliced.append('%s:%d small_object_allocator::%s' % (SOPH, s1.line, name))
+        t = rw.sub(s1.text, sig, csig, 1, 1, name='sig')
+        out.append(fin(t))
+
+    def impl(t):
+        t = rw.sub(t, r'auto tls = governor::get_thread_data\(\);', 'struct thread_data* tls = STUB_get_thread_data();', 0, None, name='callee stub')
+        t = rw.sub(t, r'auto& tls = static_cast<const execution_data_ext&>\(ed\)\.task_disp->get_thread_data\(\);', 'struct thread_data* tls = ED_thread_data(ed);', 0, None, name='accessor')
+        t = rw.sub(t, r'auto pool = tls->my_small_object_pool;', 'struct pool* pool = tls->my_small_object_pool;', 0, None, name='auto')
+        t = rw.sub(t, r'auto pool = static_cast<small_object_pool_impl\*>\(&allocator\);', 'struct pool* pool = allocator;', 0, None, name='downcast of a reference')
+        t = rw.sub(t, r'pool->allocate_impl\(allocator, number_of_bytes\)', 'pool_allocate_impl(pool, allocator, number_of_bytes)', 0, None, name='method')
+        t = rw.sub(t, r'pool->deallocate_impl\(ptr, number_of_bytes, \*?tls\)', 'pool_deallocate_impl(pool, ptr, number_of_bytes, tls)', 0, None, name='method')
+        t = rw.sub(t, r'small_object\* obj\{nullptr\};', 'small_object* obj = NULL;', 0, None, name='brace-init')
+        t = rw.sub(t, r'new \(cache_aligned_allocate\(([^()]*)\)\) small_object\{nullptr\}', r'NEW_small_object(STUB_cache_aligned_allocate(\1))', 0, None, name='placement new of a list node in fresh memory')
+        t = rw.sub(t, r'auto obj = new \(ptr\) small_object\{nullptr\};', 'small_object* obj = NEW_small_object(ptr);', 0, None, name='placement new of a list node in the freed object')
+        t = rw.sub(t, r'(?<![\w.>])allocator = this;', '*allocator = self;', 0, None, name='ref-param')
+        t = rw.sub(t, r'obj->~small_object\(\);', 'RG_NOP();', 0, None, name='trivial destructor -> RG_NOP')
+        t = rw.sub(t, r'this->~small_object_pool_impl\(\);', 'DESTROY_POOL(self);', 0, None, name='destructor call')
+        t = rw.sub(t, r'cache_aligned_deallocate\((\w+)\);', r'STUB_cache_aligned_deallocate(\1);', 0, None, name='callee stub')
+        t = rw.sub(t, r'STUB_cache_aligned_deallocate\(this\)', 'STUB_cache_aligned_deallocate(self)', 0, None, name='this')
+        t = rw.sub(t, r'td\.my_small_object_pool == this', 'td->my_small_object_pool == self', 0, None, name='ref-param + this')
+        t = rw.sub(t, r'auto old_public_list = ', 'small_object* old_public_list = ', 0, None, name='auto')
+        t = rw.atomics(t, ['m_public_list', 'm_public_counter'], 0)
+        t = rw.sub(t, r'(?<![\w.>])(m_private_list|m_private_counter|m_public_list|m_public_counter)\b', r'self->\1', 0, None, name='field')
+        t = rw.asserts(t, 0)
+        t = rw.std(t)
+        return t
+    for name, sig, csig, nth in (
+            ('r1::allocate', r'void\* __TBB_EXPORTED_FUNC allocate\(d1::small_object_pool\*& allocator, std::size_t number_of_bytes\)', 'void* r1_allocate(struct pool** allocator, size_t number_of_bytes)', 0),
+            ('r1::deallocate', r'void __TBB_EXPORTED_FUNC deallocate\(d1::small_object_pool& allocator, void\* ptr, std::size_t number_of_bytes\)', 'void r1_deallocate(struct pool* allocator, void* ptr, size_t number_of_bytes)', 0),
+            ('r1::deallocate(ed)', r'void __TBB_EXPORTED_FUNC deallocate\(d1::small_object_pool& allocator, void\* ptr, std::size_t number_of_bytes, const d1::execution_data& ed\)', 'void r1_deallocate_ed(struct pool* allocator, void* ptr, size_t number_of_bytes, execution_data_ext* ed)', 0),
+            ('allocate_impl', r'void\* small_object_pool_impl::allocate_impl\(d1::small_object_pool\*& allocator, std::size_t number_of_bytes\)', 'void* pool_allocate_impl(struct pool* self, struct pool** allocator, size_t number_of_bytes)', 0),
+            ('deallocate_impl', r'void small_object_pool_impl::deallocate_impl\(void\* ptr, std::size_t number_of_bytes, thread_data& td\)', 'void pool_deallocate_impl(struct pool* self, void* ptr, size_t number_of_bytes, struct thread_data* td)', 0)):
+        s1 = slice_block(SOPC, sig, nth=nth)
+        sliced.append('%s:%d %s' % (SOPC, s1.line, name))
+        t = rw.sub(s1.text, sig, csig, 1, 1, name='sig')
+        t = impl(t)
+        t = tag_loops(t, name.replace('r1::', 'r1_').replace('(ed)', '_ed'), rw)
+        out.append(t)
+    # which Type do the two call sites bind?
+    pt = slice_block(TGH, r'd1::task\* prepare_task\(F&& f\)', within=r'class task_group_base : no_copy \{').text
+    ma = re.search(r'alloc\.new_object<\s*(\w+)\s*<', pt)
+    if not ma:
+        raise ExtractionBreak('task_group_base::prepare_task: no alloc.new_object<Class<...>> call')
+    alloc_type = ma.group(1)
+    # the object is deleted by finalize(): `delete_object(this, ...)` deduces Type from the static type of `this`, i.e. the class in which finalize is defined
+    del_type = None
+    for cls, Wc in (('function_task', r'class function_task : public task_handle_task\s*\{'), ('task_handle_task', r'class task_handle_task : public d1::task \{')):
+        try:
+            ft = slice_block(TGH if cls == 'function_task' else THH, r'void finalize\(const d1::execution_data\* ed(?: = nullptr)?\)[^;{]*', within=Wc)
+        except ExtractionBreak:
+            continue
+        if re.search(r'delete_object\(\s*this\b', ft.text):
+            del_type = cls
+            sliced.append('%s:%d %s::finalize (binds delete_object<%s>)' % (ft.rel, ft.line, cls, cls))
+            break
+    if del_type is None:
+        raise ExtractionBreak('no finalize() that calls delete_object(this, ...) found in function_task / task_handle_task')
+    rw.fired['type bound at new_object site'] = 1
+    rw.fired['type bound at delete_object site'] = 1
+    out.append('#define SIZEOF_AT_NEW SIZEOF_%s\n#define SIZEOF_AT_DELETE SIZEOF_%s\n#define TYPE_AT_NEW "%s"\n#define TYPE_AT_DELETE "%s"' % (alloc_type, del_type, alloc_type, del_type))
+    common.write(ctx, 'pool.inc', '\n'.join(out) + '\n')
+    fired['small_object_pool'] = rw.fired
+
+
+WTH = 'src/tbb/waiters.h'
+
+
+def slice_between(rel, start_pat, end_pat, include_end=False):
+    """mechanical fragment: from the start of the first match of start_pat up to the first later match of end_pat (excluded, or included)"""
+    text = load(rel)
+    m = cxx2c.mask(text)
+    a = re.search(start_pat, m)
+    if not a:
+        raise ExtractionBreak('%s: fragment start %r not found' % (rel, start_pat))
+    b = re.compile(end_pat).search(m, a.end())
+    if not b:
+        raise ExtractionBreak('%s: fragment end %r not found' % (rel, end_pat))
+    e = b.end() if include_end else b.start()
+    return cxx2c.Slice(rel, a.start(), e, cxx2c.strip_comments(text[a.start():e]), cxx2c.line_of(text, a.start()))
+
+
+def extract_dispatch(ctx, sliced, fired):
+    """the dispatch loop: task_dispatcher::receive_or_steal_task (whole function), the main dispatch loop of task_dispatcher::local_wait_for_all (the fragment `do { ... } while (t != nullptr);`
+    inside the exception loop), external_waiter::continue_execution / postpone_execution (Waiter := external_waiter)."""
+    rw = Rewriter('dispatch')
+
+    def body_rules(t):
+        t = rw.nop_calls(t, [r'\bassert_task_valid', r'\bassert_pointer_valid<[^<>]*(?:<[^<>]*>)?[^<>]*>', r'\bsuppress_unused_warning', r'\bITT_CALLEE_ENTER', r'\bITT_CALLEE_LEAVE'])
+        t = rw.sub(t, r'__TBB_ASSERT\(task_accessor::is_resume_task\(\*t\) \|\| isolation == no_isolation \|\| isolation == ed\.isolation, nullptr\);',
+                   'VERIF_ASSERT(TASK_is_resume_task(t) || isolation == no_isolation || isolation == ed->isolation, "an isolated dispatch level runs only tasks of its own isolation level");', 0, None, name='assert kept as obligation')
+        t = rw.nop_calls(t, [r'\b__TBB_ASSERT(?:_EX)?'])        # the remaining debug assertions talk about TLS / observer / registration state outside this slice
+        t = rw.sub(t, r'context_guard\.set_ctx\(ed\.context\);', 'CONTEXT_GUARD_SET(ed->context);', 0, None, name='context guard')
+        t = rw.sub(t, r'Waiter::postpone_execution\(\*t\)', 'external_waiter_postpone_execution(t)', 0, None, name='Waiter := external_waiter')
+        t = rw.sub(t, r'void\* itt_caller = ed\.context->my_itt_caller;', 'void* itt_caller = TGC_itt_caller(ed->context);', 0, None, name='accessor')
+        t = rw.sub(t, r'ed\.context->is_group_execution_cancelled\(\)', 'TGC_is_group_execution_cancelled(ed->context)', 0, None, name='method')
+        t = rw.sub(t, r't = t->(cancel|execute)\(ed\);', r't = TASK_\1(t, ed);', 0, None, name='virtual call of the task')
+        t = rw.sub(t, r'd1::no_slot', 'no_slot', 0, None, name='ns-strip')
+        t = rw.sub(t, r'arena_slot& slot = \*m_thread_data->my_arena_slot;', 'struct aslot* slot = m_thread_data->my_arena_slot;', 0, None, name='reference -> pointer')
+        t = rw.sub(t, r'arena_slot& slot = \*tls\.my_arena_slot;', 'struct aslot* slot = tls.my_arena_slot;', 0, None, name='reference -> pointer')
+        t = rw.sub(t, r'arena& a = \*tls\.my_arena;', 'struct arena* a = tls.my_arena;', 0, None, name='reference -> pointer')
+        t = rw.sub(t, r'mail_inbox& inbox = tls\.my_inbox;', 'struct inbox* inbox = &tls.my_inbox;', 0, None, name='reference -> pointer')
+        t = rw.sub(t, r'task_stream<front_accessor>& (\w+) = a\.(\w+);', r'struct stream* \1 = &a.\2;', 0, None, name='reference -> pointer')
+        t = rw.sub(t, r'unsigned& (\w+) = slot\.(\w+);', r'unsigned* \1 = &slot.\2;', 0, None, name='reference -> pointer')
+        t = rw.sub(t, r'waiter\.continue_execution\(slot, t\)', 'external_waiter_continue_execution(waiter, slot, &t)', 0, None, name='Waiter := external_waiter + ref-param')
+        t = rw.sub(t, r'waiter\.reset_wait\(\);', 'WAITER_reset_wait(waiter);', 0, None, name='waiter')
+        t = rw.sub(t, r'waiter\.pause\(slot\);', 'WAITER_pause(waiter, slot);', 0, None, name='waiter')
+        t = rw.sub(t, r'inbox\.set_is_idle\(\s*(\w+)\s*\);', r'INBOX_set_is_idle(inbox, \1);', 0, None, name='inbox')
+        t = rw.sub(t, r'inbox\.is_idle_state\(\s*(\w+)\s*\)', r'INBOX_is_idle_state(inbox, \1)', 0, None, name='inbox')
+        t = rw.sub(t, r'(?<![\w.>])can_steal\(\)', 'disp_can_steal(self)', 0, None, name='method')
+        t = rw.sub(t, r'slot\.is_task_pool_published\(\)', 'SLOT_is_task_pool_published(slot)', 0, None, name='callee (lock.*: a load of the pool word)')
+        t = rw.sub(t, r'slot\.get_task\(ed, isolation\)', 'SLOT_get_task(slot, ed, isolation)', 0, None, name='callee (proved: pool.get_task.any_size, the.owner)')
+        t = rw.sub(t, r'receive_or_steal_task<ITTPossible>\(\s*\*m_thread_data, ed, waiter, isolation, dl_guard\.old_properties\.fifo_tasks_allowed,\s*critical_allowed\s*\)',
+                   'disp_receive_or_steal_task(self, m_thread_data, ed, waiter, isolation, dl_guard->old_properties.fifo_tasks_allowed, critical_allowed)', 0, None, name='member template call')
+        t = rw.sub(t, r'(?<![\w.>])(get_inbox_or_critical_task|get_stream_or_critical_task|steal_or_get_critical|get_critical_task)\(', r'disp_\1(self, ', 0, None, name='method')
+        t = rw.sub(t, r'a\.my_observers\.notify_entry_observers\(tls\.my_last_observer, tls\.my_is_worker\);', 'OBSERVERS_notify_entry(a, tls);', 0, None, name='observers')
+        t = rw.sub(t, r'task_accessor::(context|isolation)\(\*t\)', lambda mm: 'TASK_%s(t)' % mm.group(1).upper(), 0, None, name='accessor')
+        t = rw.sub(t, r'tls\.my_random\b', '&tls.my_random', 0, None, name='ref-arg')
+        t = rw.sub(t, r'\b(tls|ed|a|slot)\.(?=\w)', r'\1->', 0, None, name='reference -> pointer')
+        t = rw.sub(t, r'(?<![\w.>])m_thread_data\b', 'self->m_thread_data', 0, None, name='field')
+        t = rw.sub(t, r'd1::task\*', 'task*', 0, None, name='ns-strip')
+        t = rw.std(t)
+        return t
+    out = ['task* disp_receive_or_steal_task(struct task_dispatcher* self, struct thread_data* tls, execution_data_ext* ed, waiter_t* waiter, isolation_type isolation, bool fifo_allowed, bool critical_allowed);']
+    W = r'class external_waiter : public sleep_waiter \{'
+    s1 = slice_block(WTH, r'bool continue_execution\(arena_slot& slot, d1::task\*& t\) const', within=W)
+    sliced.append('%s:%d external_waiter::continue_execution' % (WTH, s1.line))
+    t = rw.sub(s1.text, r'bool continue_execution\(arena_slot& slot, d1::task\*& t\) const', 'bool external_waiter_continue_execution(waiter_t* self, struct aslot* slot, task** t)', 1, 1, name='sig')
+    t = rw.sub(t, r'__TBB_ASSERT\(t == nullptr, nullptr\);', 'VERIF_ASSERT(*t == NULL, "the waiter is asked only when no task is in hand");', 0, None, name='assert + ref-param')
+    t = rw.sub(t, r'my_wait_ctx\.continue_execution\(\)', 'WAITCTX_continue_execution(self->my_wait_ctx)', 0, None, name='callee (proved: wait.continue_execution)')
+    t = rw.sub(t, r'(?<![\w.>*])t = get_self_recall_task\(slot\);', '*t = STUB_get_self_recall_task(slot);', 0, None, name='ref-param + callee stub (C20)')
+    t = rw.std(t)
+    out.append(t)
+    s1 = slice_block(WTH, r'static bool postpone_execution\(d1::task&\)', within=W)
+    sliced.append('%s:%d external_waiter::postpone_execution' % (WTH, s1.line))
+    t = rw.sub(s1.text, r'static bool postpone_execution\(d1::task&\)', 'bool external_waiter_postpone_execution(task* t_)', 1, 1, name='sig')
+    out.append(rw.std(t))
+    s1 = slice_block(TDH, r'd1::task\* task_dispatcher::receive_or_steal_task\(')
+    sliced.append('%s:%d task_dispatcher::receive_or_steal_task' % (TDH, s1.line))
+    t = rw.sub(s1.text, r'(?s)d1::task\* task_dispatcher::receive_or_steal_task\(\s*thread_data& tls, execution_data_ext& ed, Waiter& waiter, isolation_type isolation,\s*bool fifo_allowed, bool critical_allowed\)',
+               'task* disp_receive_or_steal_task(struct task_dispatcher* self, struct thread_data* tls, execution_data_ext* ed, waiter_t* waiter, isolation_type isolation, bool fifo_allowed, bool critical_allowed)', 1, 1, name='sig')
+    t = body_rules(t)
+    t = tag_loops(t, 'ros', rw, expect=1)
+    common.write(ctx, 'dispatch_ros.inc', '\n'.join(out) + '\n' + t + '\n')
+    s1 = slice_between(TDH, r'do \{\s*context_guard\.set_ctx\(ed\.context\);', r'\} while \(t != nullptr\);', include_end=True)
+    sliced.append('%s:%d task_dispatcher::local_wait_for_all (main dispatch loop)' % (TDH, s1.line))
+    t = body_rules(s1.text)
+    t = rw.sub(t, r'\bdl_guard\.', 'dl_guard->', 0, None, name='reference -> pointer')
+    t = tag_loops(t, 'main', rw, expect=2)
+    t = ('task* disp_main_loop(struct task_dispatcher* self, task* t, waiter_t* waiter, execution_data_ext* ed, const isolation_type isolation, bool critical_allowed, struct dl_guard* dl_guard) {\n'
+         '    /* fragment of local_wait_for_all: the main dispatch loop */\n    ' + t + '\n    MAIN_LOOP_LEFT(t);\n    return NULL;\n}\n')
+    common.write(ctx, 'dispatch_main.inc', '\n'.join(out) + '\n' + t)
+    fired['dispatch'] = rw.fired
+
+
+ARH = 'src/tbb/arena.h'
+
+
+def extract_sources(ctx, sliced, fired):
+    """the thin layers between the dispatch loop and the containers: arena::steal_task (victim choice, proxy handling of the thief), arena::get_stream_task,
+    task_dispatcher::get_inbox_or_critical_task / get_stream_or_critical_task / steal_or_get_critical"""
+    rw = Rewriter('sources')
+    out = []
+
+    def rules(t):
+        t = rw.sub(t, r'auto slot_num_limit = my_limit\.load\([^)]*\);', 'unsigned slot_num_limit = ATOMIC_LOAD(self->my_limit);', 0, None, name='auto + atomic load')
+        t = rw.sub(t, r'frnd\.get\(\)', 'STUB_random_get(frnd)', 0, None, name='callee stub (FastRandom::get: any value)')
+        t = rw.sub(t, r'arena_slot\* victim = &my_slots\[k\];', 'struct aslot* victim = ARENA_SLOT(self, k);', 0, None, name='slot array access')
+        t = rw.sub(t, r'd1::task \*\*pool = victim->task_pool\.load\([^)]*\);', 'task **pool = ATOMIC_LOAD(victim->task_pool);', 0, None, name='atomic load')
+        t = rw.sub(t, r'victim->steal_task\(\*this, isolation, k\)', 'SLOT_steal_task(victim, self, isolation, k)', 0, None, name='callee (proved: pool.steal_task, the.thief)')
+        t = rw.sub(t, r'task_accessor::is_proxy_task\(\*t\)', 'TASK_IS_PROXY(t)', 0, None, name='accessor')
+        t = rw.sub(t, r'task_proxy &tp = \*\(task_proxy\*\)t;', 'struct task_proxy* tp = (struct task_proxy*)t;', 0, None, name='reference -> pointer')
+        t = rw.sub(t, r'd1::slot_id slot = tp\.slot;', 'slot_id slot = tp->slot;', 0, None, name='field')
+        t = rw.sub(t, r'tp\.extract_task<task_proxy::(\w+)>\(\)', r'STUB_proxy_extract_task(tp, \1)', 0, None, name='callee (proved: proxy.extract), template argument -> parameter')
+        t = rw.sub(t, r'tp\.allocator\.delete_object\(&tp, ed\);', 'STUB_delete_proxy(tp);', 0, None, name='callee stub')
+        t = rw.sub(t, r'd1::(any_slot|no_slot)', r'\1', 0, None, name='ns-strip')
+        t = rw.sub(t, r'(?<![\w.>])stream\.empty\(\)', 'STREAM_empty(stream)', 0, None, name='callee (stream.*)')
+        t = rw.sub(t, r'stream\.pop\(subsequent_lane_selector\(hint\)\)', 'STREAM_pop(stream, hint)', 0, None, name='callee (proved: stream.pop)')
+        t = rw.sub(t, r'inbox\.empty\(\)', 'INBOX_empty(inbox)', 0, None, name='inbox')
+        t = rw.sub(t, r'inbox\.is_idle_state\(\s*(\w+)\s*\)', r'INBOX_is_idle_state(inbox, \1)', 0, None, name='inbox')
+        t = rw.sub(t, r'inbox\.set_is_idle\(\s*(\w+)\s*\);', r'INBOX_set_is_idle(inbox, \1);', 0, None, name='inbox')
+        t = rw.sub(t, r'(?<![\w.>])get_critical_task\(', 'disp_get_critical_task(self, ', 0, None, name='method')
+        t = rw.sub(t, r'(?<![\w.>])get_mailbox_task\(inbox, ed, isolation\)', 'disp_get_mailbox_task(self, inbox, ed, isolation)', 0, None, name='method (proved: mail.get_mailbox_task)')
+        t = rw.sub(t, r'a\.get_stream_task\(stream, hint\)', 'arena_get_stream_task(a, stream, hint)', 0, None, name='method')
+        t = rw.sub(t, r'a\.steal_task\(arena_index, random, ed, isolation\)', 'arena_steal_task(a, arena_index, random, ed, isolation)', 0, None, name='method')
+        t = rw.sub(t, r'if \(d1::task\* t = ([^;{]*?)\) \{', r'task* t; if ((t = \1)) {', 0, None, name='decl-in-condition')
+        t = rw.sub(t, r'task_accessor::(context|isolation)\(\*t\)', lambda mm: 'TASK_%s(t)' % mm.group(1).upper(), 0, None, name='accessor')
+        t = rw.sub(t, r'\bed\.(?=\w)', 'ed->', 0, None, name='reference -> pointer')
+        t = rw.sub(t, r'd1::task\s*\*', 'task*', 0, None, name='ns-strip')
+        t = rw.asserts(t, 0)
+        t = rw.std(t)
+        return t
+    for rel, name, sig, csig in (
+            (ARH, 'arena::steal_task', r'inline d1::task\* arena::steal_task\(unsigned arena_index, FastRandom& frnd, execution_data_ext& ed, isolation_type isolation\)',
+             'task* arena_steal_task(struct arena* self, unsigned arena_index, struct rnd* frnd, execution_data_ext* ed, isolation_type isolation)'),
+            (ARH, 'arena::get_stream_task', r'inline d1::task\* arena::get_stream_task\(task_stream<accessor>& stream, unsigned& hint\)', 'task* arena_get_stream_task(struct arena* self, struct stream* stream, unsigned* hint)'),
+            (TDH, 'task_dispatcher::get_inbox_or_critical_task', r'(?s)inline d1::task\* task_dispatcher::get_inbox_or_critical_task\(\s*execution_data_ext& ed, mail_inbox& inbox, isolation_type isolation, bool critical_allowed\)',
+             'task* disp_get_inbox_or_critical_task(struct task_dispatcher* self, execution_data_ext* ed, struct inbox* inbox, isolation_type isolation, bool critical_allowed)'),
+            (TDH, 'task_dispatcher::get_stream_or_critical_task', r'(?s)inline d1::task\* task_dispatcher::get_stream_or_critical_task\(\s*execution_data_ext& ed, arena& a, task_stream<front_accessor>& stream, unsigned& hint,\s*isolation_type isolation, bool critical_allowed\)',
+             'task* disp_get_stream_or_critical_task(struct task_dispatcher* self, execution_data_ext* ed, struct arena* a, struct stream* stream, unsigned* hint, isolation_type isolation, bool critical_allowed)'),
+            (TDH, 'task_dispatcher::steal_or_get_critical', r'(?s)inline d1::task\* task_dispatcher::steal_or_get_critical\(\s*execution_data_ext& ed, arena& a, unsigned arena_index, FastRandom& random,\s*isolation_type isolation, bool critical_allowed\)',
+             'task* disp_steal_or_get_critical(struct task_dispatcher* self, execution_data_ext* ed, struct arena* a, unsigned arena_index, struct rnd* random, isolation_type isolation, bool critical_allowed)')):
+        s1 = slice_block(rel, sig)
+        sliced.append('%s:%d %s' % (rel, s1.line, name))
+        t = rw.sub(s1.text, sig, csig, 1, 1, name='sig')
+        out.append(rules(t))
+    for pat, what in ((r'constexpr slot_id no_slot = slot_id\(~0\);', 'no_slot'), (r'constexpr slot_id any_slot = slot_id\(~1\);', 'any_slot')):
+        if not re.search(pat, load(TASKH)):
+            raise ExtractionBreak('_task.h: %s changed' % what)
+    common.write(ctx, 'sources.inc', '\n'.join(out) + '\n')
+    fired['sources'] = rw.fired
+
+
 def build(ctx):
     sliced, fired = extract(ctx)
     extract_locks(ctx, sliced, fired)
     extract_steal(ctx, sliced, fired)
     extract_relocate(ctx, sliced, fired)
     extract_delegate(ctx, sliced, fired)
+    extract_mailbox(ctx, sliced, fired)
+    extract_waitctx(ctx, sliced, fired)
+    extract_stream(ctx, sliced, fired)
+    extract_glue(ctx, sliced, fired)
+    extract_pool(ctx, sliced, fired)
+    extract_dispatch(ctx, sliced, fired)
+    extract_sources(ctx, sliced, fired)
     C = os.path.join(HERE, 'c01.c')
     n = 5 if ctx.tier == 'quick' else 7
     jobs = [
@@ -322,20 +993,101 @@ def build(ctx):
         Job('delegate.task', C, 'h_delegated_task', route='LF', defines=['DELEG'], target='delegated_task::execute / cancel / finalize', source=ARC),
         Job('pool.steal_task', C, 'h_steal', route='LC', loops=True, nloops=1, defines=['STEAL'], target='arena_slot::steal_task (thief side, any pool size)', source=ASC, timeout=600),
         Job('proxy.extract', C, 'h_extract', route='RG', defines=['PROXY'], target='task_proxy::extract_task<pool_bit|mailbox_bit> (two-sided claim)', source=MB),
+        Job('mail.pop', C, 'h_mail_pop', route='RG', loops=True, nloops=2, defines=['MAILPOP'], target='mail_inbox::pop + mail_outbox::internal_pop (single consumer, any list length) against any number of concurrent pushers', source=MB, timeout=600),
+        Job('mail.get_mailbox_task', C, 'h_get_mailbox_task', route='LC', loops=True, nloops=1, defines=['GMT'], target='task_dispatcher::get_mailbox_task', source=TDH),
+        Job('wait.release', C, 'h_wait_release', route='RG', defines=['WAITCTX'], target='wait_context_vertex::release -> wait_context::release -> add_reference', source=TASKH),
+        Job('wait.reserve', C, 'h_wait_reserve', route='RG', defines=['WAITCTX'], target='wait_context_vertex::reserve -> wait_context::reserve -> add_reference', source=TASKH),
+        Job('wait.continue_execution', C, 'h_wait_continue', route='RG', defines=['WAITCTX'], target='wait_context_vertex::continue_execution -> wait_context::continue_execution', source=TASKH),
+        Job('stream.look_specific', C, 'h_look_specific', route='LC', loops=True, nloops=1, defines=['STREAM', 'SQ_LOOK'], target='task_stream::look_specific (any lane length)', source=TSH),
+        Job('stream.get_item.front', C, 'h_get_item_front', route='LF', defines=['STREAM', 'SQ_GETITEM'], target='task_stream_accessor<front_accessor>::get_item', source=TSH),
+        Job('stream.get_item.back_nonnull', C, 'h_get_item_back', route='LC', loops=True, nloops=1, defines=['STREAM', 'SQ_GETITEM'], target='task_stream_accessor<back_nonnull_accessor>::get_item (any lane length)', source=TSH),
+        Job('stream.try_push', C, 'h_try_push', route='RG', defines=['STREAM', 'SQ_TRYPUSH'], target='task_stream::try_push + set_one_bit (one arbitrary lane, any number of other threads)', source=TSH),
+        Job('stream.try_pop.front', C, 'h_try_pop', route='RG', defines=['STREAM', 'SQ_TRYPOP_FRONT'], target='task_stream<front_accessor>::try_pop + get_item + is_bit_set + clear_one_bit', source=TSH),
+        Job('stream.try_pop.back_nonnull', C, 'h_try_pop', route='RG', loops=True, nloops=1, defines=['STREAM', 'SQ_TRYPOP_BACK'], target='task_stream<back_nonnull_accessor>::try_pop + get_item + is_bit_set + clear_one_bit', source=TSH),
+        Job('stream.pop_specific', C, 'h_pop_specific', route='RG', loops=True, nloops=1, defines=['STREAM', 'SQ_ABSTRACT', 'SQ_POPSPEC'], target='task_stream::pop_specific + empty + is_bit_set + clear_one_bit (any N, one arbitrary lane tracked)', source=TSH),
+        Job('stream.push', C, 'h_push', route='LC', loops=True, nloops=1, defines=['STREAM', 'SQ_ABSTRACT', 'SQ_PUSH'], target='task_stream::push (retry loop over try_push)', source=TSH),
+        Job('stream.pop', C, 'h_pop', route='LC', loops=True, nloops=1, defines=['STREAM', 'SQ_ABSTRACT', 'SQ_POP'], target='task_stream::pop + empty (retry loop over try_pop)', source=TSH),
+        Job('stream.lanes.selectors', C, 'h_lane_selectors', route='LF', defines=['STREAM', 'SQ_ABSTRACT', 'SQ_LANES'], target='subsequent_ / preceding_ / random_lane_selector::operator()', source=TSH),
+        Job('stream.lanes.initialize', C, 'h_stream_initialize', route='LC', loops=True, nloops=1, defines=['STREAM', 'SQ_ABSTRACT', 'SQ_LANES'], target='task_stream::initialize (lane count for every n_lanes)', source=TSH),
+        Job('glue.task_group.run', C, 'h_group_run', route='LF', defines=['GLUE'], target='task_group::run + task_group_base::prepare_task + task_handle_task constructor', source=TGH),
+        Job('glue.function_task', C, 'h_function_task', route='LF', defines=['GLUE'], target='function_task::execute / cancel + task_handle_task::finalize / destructor + task_ptr_or_nullptr', source=TGH),
+        Job('glue.function_stack_task', C, 'h_stack_task', route='LF', defines=['GLUE'], target='function_stack_task constructor / execute / cancel / finalize', source=TGH),
+        Job('glue.task_group.wait', C, 'h_group_wait', route='LF', defines=['GLUE'], target='task_group_base::wait', source=TGH),
+        Job('glue.spawn', C, 'h_spawn', route='LF', defines=['SPAWNGLUE'], target='r1::spawn(task, context[, affinity slot]) + spawn_and_notify', source=TDC),
+        Job('glue.enqueue_task', C, 'h_enqueue', route='LF', defines=['SPAWNGLUE'], target='arena::enqueue_task', source=ARC),
+        Job('glue.task_memory.small', C, 'h_task_memory', route='LW', unwind=8, defines=['TASKMEM', 'TASKMEM_SMALL'], target='small_object_allocator::new_object / delete_object / deallocate + r1::allocate / deallocate + small_object_pool_impl::allocate_impl / deallocate_impl for the Types bound in prepare_task and finalize: tasks that are small objects', source=SOPC),
+        Job('glue.task_memory.large', C, 'h_task_memory', route='LW', unwind=8, defines=['TASKMEM', 'TASKMEM_LARGE'], target='the same for tasks whose functor makes them larger than a small object', source=SOPC),
+        Job('dispatch.receive_or_steal', C, 'h_receive_or_steal', route='LC', loops=True, nloops=1, defines=['DISP_ROS'], target='task_dispatcher::receive_or_steal_task<external_waiter> + external_waiter::continue_execution', source=TDH),
+        Job('dispatch.main_loop', C, 'h_main_loop', route='LC', loops=True, nloops=2, defines=['DISP_MAIN'], target='task_dispatcher::local_wait_for_all<external_waiter>: the main dispatch loop (bypass loop, own pool, receive_or_steal) + external_waiter::continue_execution / postpone_execution', source=TDH),
+        Job('dispatch.arena_steal_task', C, 'h_arena_steal', route='LF', defines=['DISP_SRC'], target='arena::steal_task (victim choice, the thief\'s handling of a stolen proxy)', source=ARH, timeout=600),
+        Job('dispatch.sources', C, 'h_sources', route='LF', defines=['DISP_SRC'], target='task_dispatcher::get_inbox_or_critical_task / get_stream_or_critical_task / steal_or_get_critical + arena::get_stream_task + arena::steal_task', source=TDH, timeout=600),
+        Job('mail.push', C, 'h_mail_push', route='RG', defines=['MAILPUSH'], target='mail_outbox::push against the consumer and any number of other pushers', source=MB),
     ]
     return {
         'jobs': jobs, 'sliced': sliced, 'fired': fired,
         'trusted': ['SC atomics (the real code relies on the full fences of --tail / ++head)', 'in the any-size and THE jobs the pool lock operations are stubs with the semantics proved in lock.*',
-                    'spawn (not sliced) writes only slots at or above tail and only outside get_task', 'indices below 2^41', 'proxy / mailbox idle flags: pure stubs', 'small_object_allocator::delete_object stub'],
-        'drops': ['poison_pointer (no-op in release builds)', 'thief-quiescence and head/tail consistency debug assertions in the THE jobs (obligations of the any-size jobs)', 'template<intptr_t from_bit> -> parameter',
-                  'pool element accesses -> POOL_RD/POOL_WR, task attribute reads -> TASK_* accessor macros (representation of the pool by per-index arrays)'],
-        'not_decided': ['prepare_task_pool relocation, spawn', 'mailbox MPSC list', 'task_stream', 'the dispatch loop', 'task_arena::execute delegation', 'wait_context / reference_vertex counting', 'fold_tree',
-                        'visibility of writes at the wait', '"nothing lost" under concurrent stealing (at-most-once is proved concurrently; nothing-lost per function without a concurrent taker)'],
-        'assumptions': ['tasks in a pool are pairwise distinct (representation by per-index arrays)', 'proxies in the any-size owner job yield their task through a stub that hands it out at most once'],
+                    'spawn (not sliced) writes only slots at or above tail and only outside get_task', 'indices below 2^41', 'proxy / mailbox idle flags: pure stubs', 'small_object_allocator::delete_object stub',
+                    'mail.pop: the only other writers of the mailbox are pushers, whose two steps (exchange my_last to the own link; store the proxy into the link obtained) are the guarantee proved in mail.push; a popped proxy is not pushed again while the pop that removes it is still running',
+                    'mail.push: nobody else writes the link a pusher obtained from its exchange until the pusher has filled it (guarantee of mail.pop: the consumer rewrites only completed links; other pushers: mail.push itself)',
+                    'mail.get_mailbox_task: mail_inbox::pop hands out each proxy at most once (mail.pop), extract_task<mailbox_bit> as proved in proxy.extract; delete_object stub',
+                    'wait.*: r1::notify_waiters stub (wakes the sleepers registered for the address: C02); other threads release only references they hold',
+                    'stream.*: d1::mutex::scoped_lock try_acquire / destructor are a lock (C08); std::deque operations behave as a sequence (Q_* accessors); stream.push / stream.pop / stream.pop_specific use the contracts of try_push / try_pop / look_specific proved in their own jobs; lane selectors return an index below N (stream.lanes.selectors); FastRandom::get any value',
+                    'dispatch.*: every source of tasks (bypass pointer, arena_slot::get_task, get_inbox_or_critical_task, get_stream_or_critical_task, steal_or_get_critical, get_critical_task (C16), get_self_recall_task (C20)) is a stub that hands out a fresh task or nothing, respecting the isolation level as proved for it; task::execute / cancel are call recorders that may return a bypass task (a resume task never does); wait_context::continue_execution answers anything (wait.continue_execution); observers, ITT, context_guard, the dispatch_loop_guard and the exception loop around the main loop (C03) are outside the slice',
+                    'dispatch.arena_steal_task / dispatch.sources: arena_slot::steal_task, task_stream::pop / empty, mail_inbox::empty, get_mailbox_task, get_critical_task are the stubs of the dispatch jobs; my_limit >= 1 and the caller\'s own slot index is below my_limit (C16 slots.occupy_free_slot: my_limit covers every occupied slot); FastRandom::get any 16-bit value',
+                    'glue.task_memory.*: cache_aligned_allocate / cache_aligned_deallocate stubs (malloc / recorder); free lists of any length (a real first node, an opaque tail of ghost length); sizeof(function_task<F>) >= sizeof(task_handle_task) >= sizeof(small_object); sequential (no concurrent free into the same pool, the pool is alive)',
+                    'glue.*: r1::get_thread_reference_vertex returns the calling thread\'s reference vertex under the group\'s wait vertex (C14 wait.reference_vertex.*: first reserve / last release are forwarded to the group\'s wait_context); small_object_allocator::new_object = allocation + constructor, delete_object = destructor + deallocation; task_group_context_impl::bind_to (C04); arena_slot::spawn (pool.spawn.*), mail_outbox::push (mail.push), task_stream::push (stream.push) and advertise_new_work are call recorders; d1::wait stub (the dispatch loop)'],
+        'drops': ['poison_pointer (no-op in release builds)', 'dispatch loop: assert_task_valid / assert_pointer_valid / ITT_CALLEE_* / suppress_unused_warning and the debug assertions about TLS, registration and observers -> RG_NOP (the isolation assertion is kept as an obligation); Waiter := external_waiter; template <typename Type> -> size parameter SIZEOF_Type, the Type bound at the new_object / delete_object call sites is read off the source text', 'thief-quiescence and head/tail consistency debug assertions in the THE jobs (obligations of the any-size jobs)', 'template<intptr_t from_bit> -> parameter',
+                  'pool element accesses -> POOL_RD/POOL_WR, task attribute reads -> TASK_* accessor macros (representation of the pool by per-index arrays)',
+                  'mailbox: a link (my_first / next_in_mailbox) is addressed by CELL_FIRST / CELL_OF, loads and stores through link pointers -> ATOMIC_LOAD / ATOMIC_STORE on the link address; atomic_backoff -> RG_NOP; assert_pointer_valid -> RG_NOP',
+                  'task_stream: lanes[i].my_queue / my_mutex -> LANE* accessors, std::deque methods and iterators -> Q_* accessors over positions, mutex::scoped_lock + try_acquire -> SCOPED_LOCK_INIT / SCOPED_TRY_ACQUIRE / SCOPED_LOCK_EXIT at every scope exit, lane selector functor call -> LANE_SELECT, `(++x &= m)` -> `(++x, x &= m)`, template accessor -> two instantiations',
+                  'wait_context: call_itt_task_notify -> RG_NOP', 'task_group glue: try_call(body).on_completion(fin) -> body; fin (exception path: C03), std::forward<F>(f)() -> CALL_FUNC, constructor init lists -> assignments in declared order, references -> pointers; task_ptr_or_nullptr in the configuration without TBB_PREVIEW_TASK_GROUP_EXTENSIONS'],
+        'not_decided': ['the composition into the end-to-end statement ("every unit exactly once, the wait covers all"): proved are the pieces - each container operation hands a task out at most once and loses none, the dispatch loop runs or cancels everything that comes into its hands exactly once and leaves only when the waiter says so, the wait context counts every unit from creation to after its body - the argument that puts them together is written, not mechanised',
+                        'the rest of local_wait_for_all (dispatch_loop_guard, registration, the exception loop: C03), the other waiters (outermost_worker_waiter, coroutine_waiter: C20), execute_and_wait',
+                        'the idle-flag handshake between a mailbox owner and thieves (set_is_idle / recipient_is_idle: performance and liveness, not exactly-once), task_dispatcher.cpp submit(), arena::get_critical_task (C16), resume stream (C20)', 'reference_vertex (C14 wait.reference_vertex.*), get_thread_reference_vertex map', 'fold_tree (C06)',
+                        'visibility of writes at the wait (memory orders are dropped: SC)', 'liveness: termination of mail_outbox::internal_pop\'s wait for the pusher\'s link store, of task_stream::push / pop retry loops, "no task invisible for ever" beyond the lane invariant',
+                        '"nothing lost" under concurrent stealing (at-most-once is proved concurrently; nothing-lost per function without a concurrent taker)', 'mail_outbox::drain, mail_inbox::set_is_idle / is_idle_state',
+                        'small_object_pool_impl::destroy / cleanup_list, the dead-pool branch of deallocate_impl, concurrent frees into one pool', 'task_handle based run / run_and_wait overloads, isolated_task_group, the exception edges of task_group_base::wait / internal_run_and_wait (C03)'],
+        'assumptions': ['tasks in a pool are pairwise distinct (representation by per-index arrays)', 'proxies in the any-size owner job yield their task through a stub that hands it out at most once',
+                        'a mailbox has one consumer (the owner of the inbox); at most 2^12 proxies / lane entries in the symbolic-size proofs', 'a proxy handed to mail_outbox::push is in no mailbox',
+                        'wait_context: the total number of outstanding references stays below 2^32 (the user-visible interface is 32 bit); reserve/release with delta >= 1; a thread releases only references it holds',
+                        'task_stream: N is the power of two computed by initialize (2..64); the closed-world scan in spec.py (population written only via set_one_bit / clear_one_bit inside task_stream.h) holds',
+                        'task_group glue: configuration without TBB_PREVIEW_TASK_GROUP_EXTENSIONS (user code); no exception leaves the body (C03)'],
     }
 
 
+_WB = {}
+
+
+def replay_wb(ctx, jobname):
+    """white-box recipes (c01_replay_wb.cpp): mailbox, task_stream, wait_context, group glue"""
+    if ctx.work not in _WB:
+        _WB[ctx.work] = native.build([os.path.join(HERE, 'c01_replay_wb.cpp')], os.path.join(ctx.work, 'c01_replay_wb'), flags=['-fno-access-control', '-ldl'], link_tbb=True, includes=[os.path.join(native.REPO, 'src')])
+    exe = _WB[ctx.work]
+    which = ['mail'] if jobname.startswith('mail.') else ['stream'] if jobname.startswith('stream.') else ['waitctx', 'group'] if jobname.startswith('wait.') else ['group']
+    if jobname in ('glue.spawn', 'mail.get_mailbox_task'):
+        which = ['group', 'mail']
+    if jobname == 'glue.enqueue_task':
+        which = ['group', 'stream']
+    if jobname.startswith('glue.task_memory'):
+        which = ['taskmem'] if jobname.endswith('.large') else ['taskmem-small']
+    rep = {'cmd': exe + ' ' + '|'.join(which), 'rc': None, 'output': '', 'reproduced': False, 'detail': 'native white-box scenarios (%s) found no failing sequence' % ', '.join(which)}
+    for w in which:
+        rc, out = native.run([exe, w], timeout=170)
+        rep['rc'] = rc
+        rep['output'] += out[-700:]
+        m = re.search(r'REPRODUCED (.*)', out)
+        if m:
+            rep['reproduced'] = True
+            rep['detail'] = m.group(1)[:400]
+            wc = re.search(r'class=(\S+)', m.group(1))
+            rep['witness_class'] = wc.group(1) if wc else None
+            break
+    return rep
+
+
 def replay(ctx, jobname, failure):
+    if jobname.split('.')[0] in ('mail', 'stream', 'wait', 'glue', 'dispatch'):
+        return replay_wb(ctx, jobname)
     if jobname.startswith('delegate.'):
         exe = native.build([os.path.join(HERE, 'c01_replay_delegate.cpp')], os.path.join(ctx.work, 'c01_replay_delegate'), link_tbb=True)
         rc, out = native.run([exe], timeout=180)
